@@ -11,9 +11,10 @@
                          every GPU (sched_ok; the partition path hands out unused GPUs without
                          comparing amounts). *)
 From Coq Require Import List ZArith Bool Arith.
+From Verif Require Import Gen.Gen_scores.
 From Verif Require Import C07.Model C07.Spec C07.Proofs_Res C07.Proofs_Ledger C07.Proofs_View
-  C07.Proofs_Alloc C07.Proofs_Allocate C07.Proofs_State C07.Proofs_Inv C07.Proofs_Preempt
-  C07.Proofs_Main C07.Proofs_Export.
+  C07.Proofs_Alloc C07.Proofs_Allocate C07.Proofs_Desig C07.Proofs_AllocateR C07.Proofs_State C07.Proofs_Inv
+  C07.Proofs_Preempt C07.Proofs_Main C07.Proofs_Export.
 Import ListNotations.
 Open Scope Z_scope.
 
@@ -58,6 +59,7 @@ Print Assumptions c07_refuted_shrink.
    of the Device CR, each with the request fitting its free amount in every exposed resource *)
 Theorem c07_alloc_sound : forall ops rq da t,
   forallb op_wf ops = true -> (t < 3)%nat ->
+  (most_of (nkind (exec ops)) = true -> raw_nonneg rq = true) ->
   sched_ok (nkind (exec ops)) (ledgers (exec ops)) rq = true ->
   allocate (nkind (exec ops)) (ledgers (exec ops)) (infos (exec ops)) rq = ADone da ->
   alloc_sound_t (ledgers (exec ops)) (infos (exec ops)) t rq (allocs_of da t) = true.
@@ -76,7 +78,7 @@ Print Assumptions c07_alloc_sound_meaning.
 
 (* a refusal: invalid request, no device of a requested type, or fewer eligible devices than desired *)
 Theorem c07_alloc_complete : forall ops rq code,
-  forallb op_wf ops = true ->
+  forallb op_wf ops = true -> (most_of (nkind (exec ops)) = true -> raw_nonneg rq = true) ->
   allocate (nkind (exec ops)) (ledgers (exec ops)) (infos (exec ops)) rq = AFail code ->
   (code = c_unresolvable /\
    (existsb (fun t => is_invalid (treq_of rq t)) type_ids
@@ -124,6 +126,7 @@ Print Assumptions c07_preempt_free.
    only if fewer than desired eligible devices exist on it *)
 Theorem c07_preempt_sound : forall ops rq t per count sh victims al,
   forallb op_wf ops = true -> treq_of rq t = TReq per count sh ->
+  (most_of (nkind (exec ops)) = true -> raw_nonneg rq = true) ->
   sched_ok (nkind (exec ops)) (ledgers (exec ops)) rq = true ->
   alloc_type_on (nkind (exec ops)) (ledgers (exec ops)) (infos (exec ops)) t per count sh victims = Some al ->
   (desired_count count <=
@@ -141,6 +144,75 @@ Theorem c07_preempt_complete : forall ops rq t per count sh victims,
               (minors_of (infos (exec ops)) t) count sh = true).
 Proof. exact preempt_complete_all. Qed.
 Print Assumptions c07_preempt_complete.
+
+(* scheduling cycles whose Filter and Reserve are separate operations, with any events in between:
+   Reserve re-validates. A successful Reserve grants devices on which the request fits the free
+   amounts of the moment of Reserve; for a pod with a designated allocation (annotation + scheduling
+   hint), moreover, only designated devices and within what the designation leaves of them *)
+Theorem c07_reserve_revalidates : forall ops p c da t,
+  forallb op_wf ops = true -> (t < 3)%nat ->
+  open_of (exec ops) p = Some c ->
+  sched_ok (nkind (exec ops)) (ledgers (exec ops)) (fst c) = true ->
+  snd (step (exec ops) (OReserve p)) = mkOut c_ok da ->
+  alloc_sound_t (ledgers (exec ops)) (infos (exec ops)) t (fst c) (allocs_of da t) = true /\
+  match snd c with
+  | Some dg => exists dg', desig_fill (gkey (exec ops)) (total (ledger_of (ledgers (exec ops)) 0)) dg = Some dg' /\
+                 desig_sound_t (ledgers (exec ops)) (infos (exec ops)) dg' t (fst c) (allocs_of da t) = true
+  | None => True
+  end.
+Proof. exact reserve_sound_all. Qed.
+Print Assumptions c07_reserve_revalidates.
+
+(* the allocation of a pod with a designated allocation, on any reachable state *)
+Theorem c07_designated_sound : forall ops gk rq dg da t,
+  forallb op_wf ops = true -> (t < 3)%nat -> dallocs_wf dg = true ->
+  (most_of (nkind (exec ops)) = true -> raw_nonneg rq = true) ->
+  sched_ok (nkind (exec ops)) (ledgers (exec ops)) rq = true ->
+  allocate_d (nkind (exec ops)) gk (ledgers (exec ops)) (infos (exec ops)) rq dg = ADone da ->
+  exists dg', desig_fill gk (total (ledger_of (ledgers (exec ops)) 0)) dg = Some dg' /\
+    alloc_sound_t (ledgers (exec ops)) (infos (exec ops)) t rq (allocs_of da t) = true /\
+    desig_sound_t (ledgers (exec ops)) (infos (exec ops)) dg' t rq (allocs_of da t) = true.
+Proof. exact desig_sound_all. Qed.
+Print Assumptions c07_designated_sound.
+Theorem c07_designated_sound_meaning : forall ls infos dg t rq al per count sh,
+  treq_of rq t = TReq per count sh -> desig_sound_t ls infos dg t rq al = true ->
+  length al = desired_count count /\ NoDup (map fst al) /\
+  forall a, In a al ->
+    In (fst a) (minors_of infos t) /\
+    (is_nil (allocs_of dg t) = false -> In (fst a) (map fst (allocs_of dg t))) /\
+    (forall k T v, rget (ores (dget (total (avail_of ls dg t)) (fst a))) k = Some T ->
+                   rget per k = Some v -> v <= dval (free (avail_of ls dg t)) (fst a) k).
+Proof. exact desig_sound_t_spec. Qed.
+Print Assumptions c07_designated_sound_meaning.
+Theorem c07_designated_within_free : forall ops t rq m a f k T,
+  forallb op_wf ops = true -> dnonneg rq ->
+  let l := ledger_of (ledgers (exec ops)) t in
+  avail_at l rq m = Some a -> dget (free l) m = Some f ->
+  rget (ores (dget (total l) m)) k = Some T ->
+  exists v, rget a k = Some v /\ 0 <= v <= T /\ v <= rval f k.
+Proof. exact avail_within_free_all. Qed.
+Print Assumptions c07_designated_within_free.
+(* a refusal of a designated pod: invalid request / no device of a requested type, a designated GPU
+   that is absent or exposes nothing (error), or fewer than desired designated devices can take the
+   request *)
+Theorem c07_designated_complete : forall ops gk rq dg code,
+  forallb op_wf ops = true -> dallocs_wf dg = true ->
+  (most_of (nkind (exec ops)) = true -> raw_nonneg rq = true) ->
+  allocate_d (nkind (exec ops)) gk (ledgers (exec ops)) (infos (exec ops)) rq dg = AFail code ->
+  (code = c_unresolvable /\
+   (existsb (fun t => is_invalid (treq_of rq t)) type_ids
+    || existsb (fun t => no_device_t (ledgers (exec ops)) t rq) type_ids
+    || part_unsupported (nkind (exec ops)) (treq_of rq 0)) = true)
+  \/ (code = c_error /\ desig_fill gk (total (ledger_of (ledgers (exec ops)) 0)) dg = None)
+  \/ (code = c_unsched /\ exists dg', desig_fill gk (total (ledger_of (ledgers (exec ops)) 0)) dg = Some dg' /\
+        existsb (fun t => desig_short_t (nkind (exec ops)) (ledgers (exec ops)) (infos (exec ops)) dg' t rq) type_ids = true).
+Proof. exact desig_complete_all. Qed.
+Print Assumptions c07_designated_complete.
+Example c07_cycle_demo :
+  forallb op_wf cycle_ops = true /\
+  map (fun ob => (o_code (fst ob), map fst (allocs_of (o_allocs (fst ob)) 0))) (run cycle_ops)
+  = [(0, []); (0, []); (0, []); (1, []); (1, []); (0, []); (0, [1%nat]); (1, []); (-1, [])].
+Proof. exact cycle_demo. Qed.
 
 (* duplicate add events, deletes of unknown pods and refused scheduling attempts change no ledger *)
 Theorem c07_dup_add_noop : forall ops o t,
@@ -163,6 +235,23 @@ Theorem c07_unexposed_key_granted :
   = ADone [[(0%nat, mkRes (Some 50) (Some 50) (Some 8000))]; []; []].
 Proof. exact unexposed_granted. Qed.
 Print Assumptions c07_unexposed_key_granted.
+
+(* device scoring: the per-resource score is the function REGENERATED from scoring.go
+   (deviceshare_leastRequestedScore / deviceshare_mostRequestedScore, Gen.Gen_scores) applied to
+   (total - free + request, total); under either strategy a device's score lies in [0, MaxNodeScore] *)
+Theorem c07_score_generated : forall most req tot fr k,
+  rval tot k <> 0 ->
+  slot_score most req tot fr k =
+  let rq := if rval fr k <=? rval tot k then rval tot k - rval fr k + rval req k else rval tot k in
+  Some (if most then deviceshare_mostRequestedScore rq (rval tot k)
+        else deviceshare_leastRequestedScore rq (rval tot k)).
+Proof. exact slot_score_generated. Qed.
+Print Assumptions c07_score_generated.
+Theorem c07_score_range : forall most t req tot fr,
+  (forall k, 0 <= rval tot k) -> (forall k, 0 <= rval req k) ->
+  0 <= score_device most t req tot fr <= MaxNodeScore.
+Proof. exact score_device_range. Qed.
+Print Assumptions c07_score_range.
 
 (* non-vacuity: a well-formed history satisfying the environment hypothesis on which two pods are
    granted distinct GPUs, a two-GPU request is refused in between, and a pod is released (and
